@@ -152,8 +152,9 @@ def extract_selected_variable_and_expression(symbolic_cls: Type, domain: Optiona
     """
     cache_keys = get_cache_keys_for_class_(Variable._cache_, symbolic_cls)
     if not domain and cache_keys:
-        domain = From((v for a, v in yield_class_values_from_cache(Variable._cache_, symbolic_cls, from_index=False,
-                                                                   cache_keys=cache_keys)))
+        # the registered classes are looked up when the domain is iterated, not now: a subclass whose first instance
+        # is constructed after this declaration belongs to the domain as well.
+        domain = From((v for a, v in yield_class_values_from_cache(Variable._cache_, symbolic_cls, from_index=False)))
     elif domain and is_iterable(domain.domain):
         # a new From: the one given belongs to the user and may be used for other declarations as well.
         domain = From(filter(lambda v: isinstance(v, symbolic_cls), domain.domain))
